@@ -19,7 +19,7 @@ BLOCK = 40
 STREAM_ORDER = ['sched', 'preempt', 'faults', 'time', 'script', 'cfg']
 RULE = ('the real AsyncRunner and Interpreter run on real OS threads under a baton-passing scheduler: a runner thread and 1-3 client threads '
         'with drawn scripts over queue(uid), queue(uid, delay), pause, unpause, sleep, ending with stop() - in some runs a second client calls stop() as well - (or with an event that makes the '
-        'statechart final followed by wait(), after which in half of those runs another event is queued and a second runner is started on the final interpreter and must execute nothing); one run in thirteen stops and waits for a runner that was never started; in a fifth of the runs the before_run hook pauses the runner, in some the after_execute hook of a drawn cycle does, in a quarter the other clients are already at work while start() is called; runner knobs (interval in {0, 1/16, 1}, execute_all) drawn per run. The seeded scheduler decides '
+        'statechart final followed by wait(), after which in half of those runs another event is queued and a second runner is started on the final interpreter and must execute nothing); one run in thirteen stops and waits for a runner that was never started; in a fifth of the runs the before_run hook pauses the runner, in some the after_execute hook of a drawn cycle does, in a fifth an action blocks for 0.5 / 2 / 15 virtual seconds (slow node), in a quarter the other clients are already at work while start() is called; runner knobs (interval in {0, 1/16, 1}, execute_all) drawn per run. The seeded scheduler decides '
         'every context switch at fake threading/time primitives and - in the fine configuration - at LINE events inside Interpreter._queue_event '
         '/ _select_event / execute_once / _KeyifyList.__getitem__ and the AsyncRunner methods; it injects thread stalls, wall-clock jumps seen '
         'by time.time(), and sleep overshoot. History checks (events stamped with a global sequence number): executed steps (listener ground '
@@ -53,14 +53,14 @@ class VClock(Clock):
         return self.s.now
 
 
-def chart(watchdog=False):
+def chart(watchdog=False, slow=False):
     sc = Statechart('c20')
     # variant: the statechart arms a far-away delayed internal event when it starts; it is never due during a run
     sc.add_state(CompoundState('root', initial='a', on_entry="send('wd', delay=100000)" if watchdog else None), None)
     sc.add_state(BasicState('a'), 'root')
     sc.add_state(BasicState('b'), 'root')
     sc.add_state(FinalState('f'), 'root')
-    sc.add_transition(Transition('a', None, event='e', action='seen.append(event.uid)'))
+    sc.add_transition(Transition('a', None, event='e', action='seen.append(event.uid)' + ('\nstall(event.uid)' if slow else '')))
     sc.add_transition(Transition('a', 'b', event='t', action='seen.append(event.uid)'))
     sc.add_transition(Transition('b', 'a', event='t', action='seen.append(event.uid)'))
     sc.add_transition(Transition('b', None, event='e', action='seen.append(event.uid)'))
@@ -130,7 +130,18 @@ def run(ch, tier):
     ft, ftime = make_fakes(sched)
     seen = []
     watchdog = cs.flag(1, 3)
-    it = Interpreter(chart(watchdog), clock=VClock(sched), initial_context={'seen': seen})
+    # fault "slow node": in a fifth of the runs the action that handles some events blocks for a drawn (virtual) while - a
+    # cycle can then last much longer than the runner's interval, and stop() / pause() arrive while it is under way
+    slow = cs.pick([0.5, 2.0, 15.0]) if cs.flag(1, 5) else 0
+    slow_mod = cs.int(1, 3)
+
+    def stall(uid):
+        if uid % slow_mod == 0:
+            sched.log('stall', uid)
+            sched.count('fault_slow_action')
+            sched.sleep(slow)
+
+    it = Interpreter(chart(watchdog, bool(slow)), clock=VClock(sched), initial_context={'seen': seen, 'stall': stall})
 
     def listener(me):
         if me.name == 'step started':
